@@ -255,9 +255,18 @@ def run(chk):
         any(norm(n) == 'self.timeout = self.server.timeout' for n in own_nodes(su.node) if isinstance(n, ast.Assign))
     chk.ob('C16-R', 'each handler reads the routing table and the timeout of its server', ok, '', su.loc, key='C16-R|setup')
     si = ix.func('mllp.MLLPServer.__init__')
+    def handler_class_arg(call):
+        # the request handler class given to the base server's constructor: third positional of the explicit-self form
+        # `Base.__init__(self, address, cls)`, second of `super().__init__(address, cls)`, or the keyword RequestHandlerClass
+        if not (isinstance(call.func, ast.Attribute) and call.func.attr == '__init__'):
+            return None
+        for k in call.keywords:
+            if k.arg == 'RequestHandlerClass':
+                return norm(k.value)
+        pos = 1 if isinstance(call.func.value, ast.Call) else 2
+        return norm(call.args[pos]) if len(call.args) > pos else None
     ok = any(norm(n) == 'self.handlers = handlers' for n in own_nodes(si.node) if isinstance(n, ast.Assign)) and any(
-        isinstance(n, ast.Call) and norm(n.func) == 'ThreadingTCPServer.__init__' and len(n.args) >= 3 and
-        norm(n.args[2]) == si.call_params()[4] for n in own_nodes(si.node))
+        isinstance(n, ast.Call) and handler_class_arg(n) == si.call_params()[4] for n in own_nodes(si.node))
     chk.ob('C16-R', 'the server stores the routing table and installs the request handler class', ok, '', si.loc, key='C16-R|server')
 
     # ---- C
